@@ -1,10 +1,13 @@
 import RV.C14.Model
 import RV.C14.Canon
+import RV.C14.Search
 import RV.Base.Proto
 /-
   C14 driver.  Protocol (one line in, one line out):
     iso  c c c c c c … | c c c …     -> true | false     (`isoDecide g h`)
          each `c` is a term code `2*id + (1 if blank node else 0)`; three codes = one triple
+    canon c c c … | c c c …          -> true | false | none   verdict `canonSearch g = canonSearch h` of the exhaustive
+                                         individualisation-refinement search (RV/C14/Search.lean); `none` = no leaf found
     cert k v k v … | g-codes | h-codes -> true | false    (`isoCheck m g h`; k,v = blank-node ids)
     skolem A B T T T …               -> true | false
          A, B = code points of `authority` and `basepath` given to `Graph.skolemize`; each `T` is `i:cp.cp.…` (IRI),
@@ -97,6 +100,16 @@ def step (s : Unit) : List String → Unit × String
     | [a, b] =>
       match triples? a, triples? b with
       | some g, some h => (s, showB (isoDecide g h))
+      | _, _ => (s, "bad-op")
+    | _ => (s, "bad-op")
+  | "canon" :: rest =>
+    match splitBar rest with
+    | [a, b] =>
+      match triples? a, triples? b with
+      | some g, some h =>
+        match canonSearch driverHashes g, canonSearch driverHashes h with
+        | some x, some y => (s, showB (x == y))
+        | _, _ => (s, "none")
       | _, _ => (s, "bad-op")
     | _ => (s, "bad-op")
   | "cert" :: rest =>
